@@ -16,6 +16,9 @@ lockstep over the capability grid
                 lengths at every boundary +-1; conforming client acks
   windows     : both receiving roles with proposed windows {0,1,2,127,128,255}
                 against own {1,2,127}
+  loss        : senders with own window {2,8,16,127} whose first segment / first ack
+                is lost 1..2 times (segment timer fires before any SegmentAck), the
+                receiver then grants window 1
   reception   : receiving a segmented request / ComplexAck with own window in
                 {1,2,8,16,127} != sender's {1,2,3,8,127}; in-order segments with an
                 out-of-order / duplicate / stale segment injected at every position
@@ -29,6 +32,9 @@ access point emitted (length = real APCI encoder):
   and no data frame; offered window = own in 1..127; used window = min(own,
   proposed), in 1..127 whenever both are; EVERY SegmentAck (ack or nak) carries a
   window <= what the sender proposed in its first segment.  The response limit is
+  At every instant a sender has at most `granted window` (1 before the first
+  SegmentAck) distinct unacknowledged segments on the wire (lockstep AND wire).
+  The response limit is
   decoded by the harness from the header code of the request itself; `learn`
   events with a larger / smaller I-Am maximum precede the request.
 End-to-end: two complete stacks (harness/e2e.py) over the fault-free VLAN for
@@ -104,10 +110,44 @@ def check_lengths(fail, outs, peer, limit, what):
                 fail("apdu-too-long", "%s: APDU of %d octets toward a peer that announced %d" % (what, o["len"], limit))
 
 
+class InFlight:
+    """a sender's obligation: at every instant the number of DISTINCT segments it has put
+    on the wire beyond the last segment acknowledged to it is <= the window granted in the
+    last SegmentAck it received, and <= 1 before the first ack (retransmissions of the
+    same segment do not count twice)."""
+
+    def __init__(self, fail, what):
+        self.fail, self.what = fail, what
+        self.granted = None
+        self.unacked = set()
+        self.worst = 0
+
+    def sent(self, seq):
+        self.unacked.add(seq)
+        limit = 1 if self.granted is None else self.granted
+        self.worst = max(self.worst, len(self.unacked))
+        if len(self.unacked) > limit:
+            self.fail("window-in-flight", "%s: %d distinct unacknowledged segments %r on the wire, %s" % (
+                self.what, len(self.unacked), sorted(self.unacked),
+                "no SegmentAck received yet" if self.granted is None else "the receiver granted window %d" % self.granted))
+
+    def acked(self, seq, win):
+        """a SegmentAck (ack or nak) for `seq` with window `win` reached the sender"""
+        self.granted = win
+        self.unacked = {x for x in self.unacked if x != seq and ((x - seq - 1) % 256) < 128}
+
+    def feed(self, outs, ptype, seq_at):
+        for o in outs:
+            if o["o"] == "send" and o["h"][0] == ptype and o["h"][1]:
+                self.sent(o["h"][seq_at])
+
+
 # ---------------------------------------------------------------- client role
 
-def client_scenario(ctx, label, cfg, di, n, rng):
-    """request of n octets toward peer 0; conforming server acks until all is out"""
+def client_scenario(ctx, label, cfg, di, n, rng, loss=0):
+    """request of n octets toward peer 0; conforming server acks until all is out.
+    loss = k: the first segment (or the server's first ack) is lost k times, i.e. the
+    segment timer fires k times before any SegmentAck arrives."""
     try:
         L = T.Lock(cfg, [[0, di]] if di else [], strict_learn=True)
     except T.LearnError as e:
@@ -115,9 +155,23 @@ def client_scenario(ctx, label, cfg, di, n, rng):
                  "the limits a peer announces in its I-Am are never used for requests: %s" % e)
         L = T.Lock(cfg, [[0, di]] if di else [])
     L.label = label
-    fail = Fail(ctx, L, label, {"role": "client", "cfg": cfg, "di": di, "n": n})
+    fail = Fail(ctx, L, label, {"role": "client", "cfg": cfg, "di": di, "n": n, "loss": loss})
     r = L.request(0, 200, pattern(n))
     outs = list(r["out"])
+    flight = InFlight(fail, "request")
+    flight.feed(outs, 0, 7)
+    lost_out = []
+    for _ in range(loss):
+        if not L.smap.clientTransactions or L.smap.clientTransactions[0].state != 1:
+            break
+        rr = L.fire_next()
+        if rr is None:
+            break
+        more = rr[1]["out"]
+        flight.feed(more, 0, 7)
+        lost_out += more
+        if data_frames(more, 0):
+            outs = more
     # what the peer announced (or, without a record, what the client may assume: its own)
     if di and di["maxApdu"] is not None:
         limit = di["maxApdu"] if di["maxNpdu"] is None else min(di["maxApdu"], di["maxNpdu"])
@@ -137,11 +191,11 @@ def client_scenario(ctx, label, cfg, di, n, rng):
         expect = ("abort", 11)
     else:
         expect = "segmented"
-    all_out = list(outs)
+    all_out = list(r["out"]) + lost_out
     if expect == "segmented":
         # play the server: ack each window until the final segment was seen
         guard = 0
-        win = rng.choice([1, 2, 3, cfg["window"]])
+        win = 1 if loss else rng.choice([1, 2, 3, cfg["window"]])
         while guard < 400:
             guard += 1
             segs = data_frames(outs, 0)
@@ -150,12 +204,15 @@ def client_scenario(ctx, label, cfg, di, n, rng):
             last = segs[-1]["h"]
             if not last[1]:
                 break
+            flight.acked(last[7], win)
             if not last[2]:          # more-follows clear: final ack
                 r = L.frame(0, {"t": 4, "srv": 1, "id": last[6], "seq": last[7], "win": win})
                 all_out += r["out"]
+                flight.feed(r["out"], 0, 7)
                 break
             r = L.frame(0, {"t": 4, "srv": 1, "id": last[6], "seq": last[7], "win": win})
             outs = r["out"]
+            flight.feed(outs, 0, 7)
             all_out += outs
     # ---- oracle
     check_lengths(fail, all_out, 0, limit, "request")
@@ -193,11 +250,12 @@ def client_scenario(ctx, label, cfg, di, n, rng):
 
 # ---------------------------------------------------------------- server role
 
-def server_scenario(ctx, label, cfg, di, hdr, n, rng):
-    """request with capability header `hdr` from peer 0; application answers with n octets"""
+def server_scenario(ctx, label, cfg, di, hdr, n, rng, loss=0):
+    """request with capability header `hdr` from peer 0; application answers with n octets;
+    loss = k: the first response segment (or the client's first ack) is lost k times"""
     L = T.Lock(cfg, [])
     L.label = label
-    fail = Fail(ctx, L, label, {"role": "server", "cfg": cfg, "di": di, "hdr": hdr, "n": n})
+    fail = Fail(ctx, L, label, {"role": "server", "cfg": cfg, "di": di, "hdr": hdr, "n": n, "loss": loss})
     if di:
         # the application learns about the peer (I-Am) BEFORE the request arrives: its
         # maximum may be larger or smaller than what the request header will announce
@@ -224,6 +282,19 @@ def server_scenario(ctx, label, cfg, di, hdr, n, rng):
     r = L.response(0, {"t": 3, "id": 7, "svc": 200, "hex": pattern(n).hex()})
     outs = r["out"]
     all_out += outs
+    flight = InFlight(fail, "response")
+    flight.feed(outs, 3, 4)
+    for _ in range(loss):
+        if not L.smap.serverTransactions or L.smap.serverTransactions[0].state != 4:
+            break
+        rr = L.fire_next()
+        if rr is None:
+            break
+        more = rr[1]["out"]
+        flight.feed(more, 3, 4)
+        all_out += more
+        if data_frames(more, 3):
+            outs = more
     fits = n + 3 <= limit
     size = limit - 5
     count = 1 if fits else (-(-n // size) if size > 0 else 0)
@@ -240,7 +311,7 @@ def server_scenario(ctx, label, cfg, di, hdr, n, rng):
         expect = "segmented"
     if expect == "segmented":
         guard = 0
-        win = rng.choice([1, 2, 3, cfg["window"]])
+        win = 1 if loss else rng.choice([1, 2, 3, cfg["window"]])
         while guard < 400:
             guard += 1
             segs = data_frames(outs, 3)
@@ -249,8 +320,10 @@ def server_scenario(ctx, label, cfg, di, hdr, n, rng):
             last = segs[-1]["h"]
             if not last[1]:
                 break
+            flight.acked(last[4], win)
             r = L.frame(0, {"t": 4, "srv": 0, "id": 7, "seq": last[4], "win": win})
             outs = r["out"]
+            flight.feed(outs, 3, 4)
             all_out += outs
             if not last[2]:
                 break
@@ -365,6 +438,19 @@ def reception_scenario(ctx, label, own, prop, direction, pos, kind):
     return L
 
 
+def loss_grid():
+    """senders whose own window is much larger than what the receiver grants (1), with the
+    first segment / the first ack lost 1..2 times"""
+    out = []
+    for own in (2, 8, 16, 127):
+        for role in ("client", "server"):
+            for loss in (1, 2):
+                for m in (50, 206):
+                    for nseg in (3, 9, 20):
+                        out.append(("l", own, role, loss, m, nseg))
+    return out
+
+
 RECV_OWN = [1, 2, 8, 16, 127]
 RECV_PROP = [1, 2, 3, 8, 127]
 
@@ -458,6 +544,15 @@ def shard(ctx, spec):
                     if n > 70000:
                         continue
                     locks.append(server_scenario(ctx, "server-%d-%d-%d" % (idx, v, n), dict(cfg), di, hdr, n, rng))
+        elif it[0] == "l":
+            _l, own, role, loss, m, nseg = it
+            cfg.update(seg=3, window=own, maxSegs=64, maxApdu=1024, retries=3)
+            if role == "client":
+                di = {"maxApdu": m, "seg": 3, "maxSegs": None, "maxNpdu": None}
+                locks.append(client_scenario(ctx, "loss-c-%d" % idx, dict(cfg), di, (m - 6) * nseg - 3, rng, loss=loss))
+            else:
+                hdr = {"maxResp": {50: 0, 206: 2}[m], "maxSegs": 7, "sa": 1}
+                locks.append(server_scenario(ctx, "loss-s-%d" % idx, dict(cfg), None, hdr, (m - 5) * nseg - 3, rng, loss=loss))
         elif it[0] == "r":
             _r, own, prop, direction, pos, rkind = it
             locks.append(reception_scenario(ctx, "recv-%d-%d-%s-%d-%s" % (own, prop, direction, pos, rkind),
@@ -507,6 +602,25 @@ def e2e_shard(ctx, items):
                     bad.append(("window-range", "segment with window %d on the wire" % h["win"]))
             if h["type"] == 4 and not (1 <= h["win"] <= 127):
                 bad.append(("window-range", "segment ack with window %d on the wire" % h["win"]))
+        # window in flight, from the wire: per sender and transfer
+        flights = {}
+        for f in res["frames"]:
+            h = E.decode_apdu_header(f[3])
+            if not h or "type" not in h:
+                continue
+            try:
+                src, dst = int(f[1]), int(f[2])
+            except ValueError:
+                continue
+            if h["type"] in (0, 3) and h.get("seg"):
+                fl = flights.setdefault((src, h["type"], h["invoke"]), InFlight(
+                    lambda kind, what: bad.append((kind, what)), "stack %d, type %d" % (src, h["type"])))
+                fl.sent(h["seq"])
+            elif h["type"] == 4 and f[4] != "drop":
+                # srv=1: sent by the server to the sender of a request (type 0); srv=0: to the sender of a response
+                key = (dst, 0 if h["srv"] else 3, h["invoke"])
+                if key in flights:
+                    flights[key].acked(h["seq"], h["win"])
         for (dst, t, inv), ss in segs.items():
             ms = cap[dst].get("max_segs")
             # a response is bounded by the request header (the receiver's own setting, encoded);
@@ -541,6 +655,13 @@ def e2e_cases(ctx, rng):
                                     "window": rng.choice([1, 2, 5, 127])},
                               "b": {"max_apdu": mb, "seg": sb, "max_segs": msb, "seg_timeout": 1500,
                                     "window": rng.choice([1, 2, 5, 127])}})
+    # first segment / first ack lost, sender's window >> receiver's
+    for (wa, wb) in ((8, 1), (127, 1), (16, 2), (1, 8)):
+        for drop in (0, 1, 2):
+            for (clen, slen) in ((600, 5), (5, 600), (600, 600)):
+                cases.append({"clen": clen, "slen": slen, "mode": "ack", "know": True, "faults": {str(drop): "drop"},
+                              "a": {"max_apdu": 128, "seg": SEGN[3], "max_segs": 64, "seg_timeout": 1500, "window": wa},
+                              "b": {"max_apdu": 128, "seg": SEGN[3], "max_segs": 64, "seg_timeout": 1500, "window": wb}})
     return cases
 
 
@@ -561,9 +682,9 @@ def run_case(ctx, case, label):
     p = case["params"]
     rng = ctx.sub_rng("c12/replay")
     if p["role"] == "client":
-        L = client_scenario(ctx, label, p["cfg"], p["di"], p["n"], rng)
+        L = client_scenario(ctx, label, p["cfg"], p["di"], p["n"], rng, loss=p.get("loss", 0))
     elif p["role"] == "server":
-        L = server_scenario(ctx, label, p["cfg"], p["di"], p["hdr"], p["n"], rng)
+        L = server_scenario(ctx, label, p["cfg"], p["di"], p["hdr"], p["n"], rng, loss=p.get("loss", 0))
     elif p["role"] == "reception":
         L = reception_scenario(ctx, label, p["own"], p["proposed"], p["direction"], p["pos"], p["kind"])
     else:
@@ -592,6 +713,7 @@ def run(ctx):
             if part:
                 specs.append((kind, part))
     specs.append(("window", wins))
+    specs.append(("loss", list(enumerate(loss_grid()))))
     rg = list(enumerate(reception_grid()))
     for i in range(4):
         specs.append(("reception", rg[i::4]))
